@@ -15,6 +15,7 @@ from harness import reps, build, gen
 from harness import refmodel as rm
 
 RULE = (
+    "A fifth of the tomography configurations live on a hand-rotated orthonormal Hermitian identity-first basis (harness/covar.py). "
     "A configuration = tomography type (qst/povmt/qpt/qmpt) x shape (1q/qutrit) x parametrisation flag x tester sets "
     "(Hypothesis-drawn physical states / POVMs with 2..5 outcomes, all rank classes) x empirical distributions (drawn "
     "integer counts / N, zero counts frequent) x weights (identity / SPD / diagonal / singular-embedded matrices, positive "
@@ -94,8 +95,26 @@ def num_var_of(tomo, d, m_est, flag):
     return m_est * n * n - n if flag else m_est * n * n
 
 
+_ENV = {}
+
+
+def _env(case):
+    """(c_sys, basis): built-in basis, or a hand-rotated orthonormal Hermitian identity-first one (harness/covar.py)."""
+    rot = case.get("rot")
+    if rot is None:
+        return build.c_sys_for(case["shape"]), gen.ref_basis(case["shape"])
+    key = (case["shape"], tuple(rot))
+    if key not in _ENV:
+        from harness import covar
+
+        _ENV.clear()
+        c_sys, _o, basis = covar.rotated_env(case["shape"], rot)
+        _ENV[key] = (c_sys, basis)
+    return _ENV[key]
+
+
 def tester_vecs(case):
-    basis = gen.ref_basis(case["shape"])
+    basis = _env(case)[1]
     s = [np.real(rm.vec(basis, gen.state_matrix(c))) for c in case.get("states", [])]
     p = [[np.real(rm.vec(basis, e)) for e in gen.povm_matrices(c)] for c in case.get("povms", [])]
     return s, p
@@ -207,7 +226,7 @@ def born_matrix_level(case, var):
     shape, tomo, flag = case["shape"], case["tomo"], case["flag"]
     d = gen.dim_of(shape)
     n = d * d
-    basis = gen.ref_basis(shape)
+    basis = _env(case)[1]
     m_est = case.get("m_est")
     x = stacked_from_var(tomo, flag, d, m_est, var)
     rhos = [gen.state_matrix(c) for c in case.get("states", [])]
@@ -241,7 +260,7 @@ def outside_physical(case, var):
     shape, tomo, flag = case["shape"], case["tomo"], case["flag"]
     d = gen.dim_of(shape)
     n = d * d
-    basis = gen.ref_basis(shape)
+    basis = _env(case)[1]
     m_est = case.get("m_est")
     x = stacked_from_var(tomo, flag, d, m_est, var)
     if tomo == "qst":
@@ -417,9 +436,9 @@ def make_qt(case):
     from quara.protocol.qtomography.standard.standard_qpt import StandardQpt
     from quara.protocol.qtomography.standard.standard_qst import StandardQst
 
-    c_sys = build.c_sys_for(case["shape"])
-    states = [build.obj_from_case(c, c_sys)[0] for c in case.get("states", [])]
-    povms = [build.obj_from_case(c, c_sys)[0] for c in case.get("povms", [])]
+    c_sys, basis = _env(case)
+    states = [build.make(c_sys, "state", gen.stacked_reference(c, basis)) for c in case.get("states", [])]
+    povms = [build.make(c_sys, "povm", gen.stacked_reference(c, basis), m=c.get("m")) for c in case.get("povms", [])]
     t, flag = case["tomo"], case["flag"]
     if t == "qst":
         return StandardQst(povms, on_para_eq_constraint=flag)
@@ -442,7 +461,7 @@ def make_option(ocls, mode, weights, implicit_mode=False):
 def base_var(case):
     shape, tomo, flag = case["shape"], case["tomo"], case["flag"]
     d = gen.dim_of(shape)
-    basis = gen.ref_basis(shape)
+    basis = _env(case)[1]
     x = gen.stacked_reference(case["true"], basis)
     return var_from_stacked(tomo, flag, d, case.get("m_est"), x)
 
@@ -562,6 +581,9 @@ def tomo_config(draw, tier, tomos=("qst", "povmt", "qpt", "qmpt"), small=False):
                                   st.floats(1.01, 1.5)))
     case["floor"] = draw(st.sampled_from([1e-5, 1e-4, 1e-3, 1e-2, 5e-2]))
     case["tscale"] = draw(st.sampled_from([0.05, 0.3, 1.0, 3.0]))
+    if draw(st.integers(0, 4)) == 0:
+        # the same tomography over a hand-rotated (orthonormal, Hermitian, identity-first) basis: harness/covar.py
+        case["rot"] = draw(gen.raw(64))
     return case
 
 
